@@ -340,6 +340,12 @@ theorem rInput_key_PK (cfg : Cfg) (k : Bytes) {s : St} (h : PK C own F s.rkey s)
   · exact h
   · rename_i st' outs heq
     cases hs : s.rcv <;> rw [hs] at heq <;> simp [Receive.table] at heq
+    case S3_scared =>
+      -- `S3_scared.upon(got_key, enter=S3_scared, outputs=[])`: nothing is recorded
+      obtain ⟨h1, h2⟩ := heq
+      subst h1; subst h2
+      simp only [runOuts]
+      exact ⟨h.app, h.rxp, h.rxd, h.oq, h.rk, (fun h0 => by cases h0), h.rxo, h.dlo⟩
     obtain ⟨h1, h2⟩ := heq
     subst h1; subst h2
     have hnone := h.key0 hs
@@ -359,7 +365,7 @@ theorem rGotMessage_PK (cfg : Cfg) (f : Frame) {s : St} (h : PK C own F r0 s) (h
     PK C own F r0 (rGotMessage C cfg f s).1 := by
   unfold rGotMessage
   split
-  · exact h
+  · exact rInput_PK cfg _ _ h trivial
   · rename_i K hK
     split
     · exact h
@@ -403,7 +409,7 @@ theorem skOut_Inv (cfg : Cfg) (a : KArg) (o : SortedKey.Output) {s : St} (h : In
   · split
     · exact h
     · split
-      · exact h
+      · exact bossInput_Inv cfg _ _ h trivial
       · rename_i k _
         have h1 := bossInput_Inv (C := C) cfg .got_key (.bytes k) h trivial
         split
@@ -435,7 +441,7 @@ theorem skGotPake_Inv (cfg : Cfg) (body : Bytes) {s : St} (h : Inv C own F s) :
     Inv C own F (skGotPake C cfg body s).1 := by
   unfold skGotPake
   split
-  · exact h
+  · exact skInput_Inv cfg _ _ h
   · exact skInput_Inv cfg _ _ h
   · exact skInput_Inv cfg _ _ h
 
